@@ -88,6 +88,23 @@ fn check_pair(src: &Sources, base: &Value, via_cli: bool, st: &mut Stats) -> Vec
     let o = if via_cli {
         let dir = TempDir::new("c14");
         write_sources(&dir.path, src);
+        // The target usually exists already: first generate it from a richer base (more tags, a trailing
+        // extension), then from the base under test; what the second run writes must be the whole file.
+        let mut richer = base.clone();
+        if let Some(m) = richer.as_object_mut() {
+            let mut tags = m.get("tags").and_then(Value::as_array).cloned().unwrap_or_default();
+            for t in ["zz-old-a", "zz-old-b", "zz-old-c"] {
+                tags.push(json!({"name": t, "description": "only in the previous generation of the target"}));
+            }
+            m.insert("tags".into(), Value::Array(tags));
+            m.insert("x-zz-previous".into(), json!({"note": "only in the previous generation of the target", "pad": "x".repeat(200)}));
+        }
+        let _ = std::fs::write(dir.path.join("base.yaml"), serde_yaml::to_string(&richer).unwrap_or_default());
+        let r0 = run_cli(&dir.path, &src.files[0].0, "out.yaml", Some("base.yaml"));
+        st.inc("cli_runs");
+        if r0.success() {
+            st.inc("cli_targets_regenerated_over_a_longer_one");
+        }
         let _ = std::fs::write(dir.path.join("base.yaml"), &base_yaml);
         let r = run_cli(&dir.path, &src.files[0].0, "out.yaml", Some("base.yaml"));
         st.inc("cli_runs");
